@@ -29,8 +29,10 @@ from .prologVisitor import prologVisitor
 from .errors import CompilerError
 
 def comment_lines(s):
-    '''turns s into Python comment lines, whatever line breaks it contains.'''
-    return "".join('# ' + l + '\n' for l in (s.splitlines() or ['']))
+    '''turns s into Python comment lines, whatever line breaks it contains.
+    A NUL character is written as \\0: Python refuses source text that contains one,
+    even inside a comment.'''
+    return "".join('# ' + l + '\n' for l in (s.replace('\0','\\0').splitlines() or ['']))
 
 class PredicateList:
     def __init__(self,head,tail):
